@@ -1,6 +1,7 @@
 package workers
 
 import (
+	"h2v/vf"
 	"fmt"
 	"math/rand"
 	"strings"
@@ -63,16 +64,26 @@ func xnetFields(fs []hpack.HeaderField) []F {
 
 // sutDecodeBlock decodes a complete header block the way the server's
 // handleHeaderFrame does: blockStart fixed for the frame, fieldsProcessed counted.
-// hf is reset before every step so a stale flag is not blamed on the decoder.
+// (see reuse below for how the HeaderField is handled between steps)
 func sutDecodeBlock(hp *http2.HPACK, block []byte) (fields []F, steps int, noProgress bool, err error) {
 	hf := http2.AcquireHeaderField()
 	defer http2.ReleaseHeaderField(hf)
 	b := block
 	n := 0
+	// every other block is decoded into one HeaderField that is not reset between fields, which is how the library's own
+	// callers use the decoder (one pooled HeaderField per header block): whatever a field leaves behind in it must not
+	// show up in the next one
+	reuse := vf.Hash(block)%2 == 0
 	for len(b) > 0 {
-		hf.Reset()
+		if !reuse {
+			hf.Reset()
+		}
 		pb := b
 		b, err = hp.VerifNextField(hf, true, n, b)
+		if err != nil && len(b) == 0 && err.Error() == "no header field decoded" {
+			// the decoder's way of saying that only table size updates were left (they have been applied)
+			return fields, n, false, nil
+		}
 		if err != nil {
 			return fields, n, false, err
 		}
